@@ -334,7 +334,7 @@ def oracle_state(ps, sh, kind) -> list[tuple[str, str]]:
                 derived = getattr(law, "derived", False)
                 scale = max(1.0, law.std)
                 m = margs[i]
-                bm = D.B24 if getattr(law, "numeric_moments", False) else B30
+                bm = (D.B20 if getattr(law, "composite", False) else D.B24) if getattr(law, "numeric_moments", False) else B30
                 if getattr(law, "numeric_moments", False) and not getattr(law, "moment_error", 1.0) <= 1e-10:
                     continue
                 if not D.close(m.mean, float(law.mean), bm, scale):
@@ -559,7 +559,7 @@ def run(ctx) -> Result:
     except ImportError:
         c19_stats = None
     if c19_stats is not None:
-        c19_stats.run_stream(res, rng, 60 if ctx.thorough else 12, t_end)
+        c19_stats.run_stream(res, rng, 300 if ctx.thorough else 30, t_end)
     return res
 
 
